@@ -15,7 +15,7 @@ Rules:
 * Work ONLY in your own scratch git worktree: run `git -C /repo worktree add --detach /tmp/seed_{pid}_{k} HEAD` and edit files there. NEVER edit anything under /repo itself, and do NOT read or use anything under /verif (the change must be independent of the existing verification machinery).
 * The change must be the kind of mistake a real refactoring or optimisation could introduce (an off-by-one, a dropped guard, a reordered pair of steps, a cache not invalidated on one path, a comparison flipped for a corner case, a missing fsync / persist-before-reply, two sites that each look fine alone …), 1–30 changed lines, in the anchored files (or code they call). It must need something SPECIFIC to manifest — a particular interleaving, a crash or fault at a particular point, a multi-step sequence of operations, an unusual input, or two cooperating sites — NOT something ordinary use would expose at once. {hint}
 * It must still compile and pass the existing tests of every crate you touched: run `CARGO_TARGET_DIR=/tmp/seed_target_{pid}_{k} cargo test -p <crate> --offline` in the worktree (tests whose names contain `readonly`, `permission_denied`, `disk_full`, `truncate_error_handling`, `append_returns_io_error_on_failure` fail in this sandbox even without your change because we run as root, and tests named `test_no_resize_stall` are timing-flaky under load: ignore those). If an existing test catches your change, pick a different change.
-* Demonstration: a Rust integration test file (placed under the touched crate's `tests/` directory in your worktree, e.g. `tests/seed_demo.rs`) or a small example program that FAILS with your change applied and PASSES on the unchanged code (verify both: run it with the change, then `git stash` / re-apply to run it without). Keep the demo deterministic.
+* Demonstration: a Rust integration test file (placed under the touched crate's `tests/` directory in your worktree, e.g. `tests/seed_demo.rs`) or a small example program that FAILS with your change applied and PASSES on the unchanged code (verify both: run it with the change, then save your change with `git diff > /tmp/seed_{pid}_{k}.patch`, undo it with `git apply -R /tmp/seed_{pid}_{k}.patch`, run the demo without it, and re-apply with `git apply /tmp/seed_{pid}_{k}.patch` — do NOT use `git stash`: the stash is shared between all worktrees of /repo and other people are working in other worktrees). Keep the demo deterministic.
 * Deliver in /tmp/seed_out/{pid}_{k}/ : `patch.diff` (= `git -C /tmp/seed_{pid}_{k} diff` of the SOURCE change only, without the demo file), the demo file(s), and `meta.json` with keys: property, files_changed, what_the_change_does, what_it_needs_to_manifest, how_to_run_demo (exact command), demo_result_with_change, demo_result_without_change, existing_tests_run (commands + pass counts).
 * When done remove your worktree and build output: `git -C /repo worktree remove --force /tmp/seed_{pid}_{k}; rm -rf /tmp/seed_target_{pid}_{k}`.
 Final answer: a 5-line summary (what you changed, what it needs to manifest, demo results with/without, tests run).""")
